@@ -624,16 +624,34 @@ class Gen:
         self.features.add('nested_def')
         nparams = r.choice([0, 0, 1, 1, 2])
         params = [('k%d' % i, r.choice(['int', 'str', 'float', 'bool'])) for i in range(nparams)]
+        unanno = set()
+        # unannotated parameters (the resolver knows nothing about them): some re-use the NAME of a typed variable of the
+        # enclosing function (possibly one that other local functions capture or rebind) and receive values of another
+        # type; the others (fresh name, or annotated) are the controls
+        for i, (pn, pt) in enumerate(params):
+            u = r.random()
+            if u < 0.35:
+                outer = sorted(v for v, ts in sc.env.items() if v in OUTER_NAMES and pt not in ts
+                               and v not in [q for q, _ in params])
+                if outer:
+                    params[i] = (r.choice(outer), pt)
+                    self.features.add('param_named_like_outer_var')
+                unanno.add(params[i][0])
+            elif u < 0.5:
+                unanno.add(pn)
+        if unanno:
+            self.features.add('unannotated_param')
         ret = r.choice(['int', 'str', 'float', 'bool', None, None])
         if 'closure_out' in P and r.random() < 0.6:
-            params, ret = [], 'int'
+            params, ret, unanno = [], 'int', set()
         inner = Scope(nested=True, pool=INNER_NAMES)
         inner.frozen = set()
         inner.volatile = set()
         for p, t in params:
             inner.env[p] = frozenset({t})
             inner.frozen.add(p)
-        avail = sorted(v for v in sc.env if v in OUTER_NAMES or v.startswith(('p', 'c')))
+        pnames = {q for q, _ in params}
+        avail = sorted(v for v in sc.env if (v in OUTER_NAMES or v.startswith(('p', 'c'))) and v not in pnames)
         capt = r.sample(avail, min(len(avail), r.choice([0, 1, 1, 2, 3])))
         for x in capt:
             ts = sc.env[x]
@@ -701,7 +719,7 @@ class Gen:
             anno = ' -> %s' % ret
         self.pending = []                            # calls inside the body happen when the body runs, not now
         sc.fns[name] = FnSig(tuple(params), ret, effects)
-        hdr = pad + 'def %s(%s)%s:' % (name, ', '.join('%s: %s' % (p, t) for p, t in params), anno)
+        hdr = pad + 'def %s(%s)%s:' % (name, ', '.join(p if p in unanno else '%s: %s' % (p, t) for p, t in params), anno)
         return [hdr] + head + body
 
     # ------------------------------------------------------------------ whole program
